@@ -29,6 +29,16 @@ theorem C03_fixpoint_nested (n : N) (ind : Nat) (h : stable n = true) : fmtV ind
 /-- keyword lower-casing of one unquoted text is idempotent -/
 theorem C03_lowerKw_idem (s : Text) : lowerKw (lowerKw s) = lowerKw s := lowerKw_idem s
 
+/-- tie R: the structural facts of the source the model relies on (regenerated from /repo on every run):
+    printer._map defers board nodes through IsBoardNode, compares the board type with the same three literals
+    IsBoardNode switches on, still has the `Start.Line != 0` rule, and every board keyword is a reserved keyword.
+    If format.go / d2ast.go / keywords.go change shape here, this obligation breaks and the check searches. -/
+theorem C03_model_matches_source_shape :
+    D2V.Gen.FmtKw.mapDefersBoards = true ∧ D2V.Gen.FmtKw.mapLine0Rule = true ∧
+    D2V.Gen.FmtKw.mapBoardTypeLiterals = D2V.Gen.FmtKw.isBoardNodeLabels ∧
+    D2V.Gen.FmtKw.isBoardNodeLabels = D2V.Gen.FmtKw.boardKeywords ∧
+    (∀ k ∈ D2V.Gen.FmtKw.boardKeywords, isReserved k = true) := by decide
+
 /-! ### concrete trees -/
 
 def u (s : String) : Str := { q := .u, raw := s.toList, val := s.toList }
